@@ -282,21 +282,7 @@ def stage_oracle(ctx: Ctx, progs):
                 continue
             inside = [f for f, l in located if (ln, col) <= (l[0], l[1]) and (l[2], l[3]) <= (eln, ecol)]
             want_in = inside[0] if inside else None
-            def in_debug_field(n):
-                # the Constant that holds the text of a self-documenting f-string field OVERLAPS the field that follows it (CPython's positions): siblings that overlap are outside
-                # what the search functions are written for (find_contains_loc copes, find_in_loc descends into the Constant and stops there)
-                while n is not None:
-                    if isinstance(n.a, ast.FormattedValue) and n.parent is not None:
-                        for sib in n.parent.a.values:
-                            sf = getattr(sib, 'f', None)
-                            if sf is not None and sf is not n and isinstance(sib, ast.Constant) and sf.loc is not None and (sf.loc[2], sf.loc[3]) > (n.loc[0], n.loc[1]) and (sf.loc[0], sf.loc[1]) < (n.loc[0], n.loc[1]):
-                                return True
-                    n = n.parent
-                return False
-            if got_in is None and want_in is not None and in_debug_field(want_in):
-                ctx.violation('find_in_loc|debug-field-overlap', 'find_in_loc finds nothing although a node of a self-documenting f-string field lies inside the rectangle',
-                              {'src': src, 'rect': rect, 'got': repr(got_in), 'want': repr(want_in)})
-            elif (got_in is None) != (want_in is None) or (got_in is not None and tuple(got_in.loc) != tuple(want_in.loc) and got_in is not want_in):
+            if (got_in is None) != (want_in is None) or (got_in is not None and tuple(got_in.loc) != tuple(want_in.loc) and got_in is not want_in):
                 # the first node in walk order entirely inside the rectangle
                 ctx.violation('find_in_loc', 'find_in_loc differs from the brute-force first node inside the rectangle',
                               {'src': src, 'rect': rect, 'got': repr(got_in), 'want': repr(want_in)})
@@ -473,6 +459,8 @@ def run(ctx: Ctx):
               'f(a=b == c, d=(e := 1), *g[1:2], **{1: 2})\nx = {**{1: 2}, 3: {4: 5}, **a[1:2]}\ny = a if (b if c else d) else e\n',
               'import a.b as c, d as e\nfrom . import (f as g, h)\ntry: pass\nexcept (A, B) as e: x = {1: 2}\nexcept* C: pass\n' if False else 'import a.b as c, d as e\nfrom . import (f as g, h)\ntry: pass\nexcept (A, B) as e: x = {1: 2}\n',
               'x = f"{a:{b}} {c!r:>{d}} {e[1:2]} { {1: 2}[1] }"\ny = [*a, *b[1:2]]\ndel a[1:2], b\nz = a[1:2, ::3, b:c]\n']
+    # self-documenting f-string fields: the Constant holding the field's text overlaps the field that follows it (CPython's positions) - siblings the search functions must cope with
+    progs += ["p = f'\u03c7{\u00e4!r:>{w}}y{b=}' 'z' \"w\"\nq = f'{a = }{b=!r:>5}'\n", "r = f'''{x=}\n{y = :>{w}}'''\n"]
     run_guarded(ctx, stage_oracle, progs)
     run_guarded(ctx, stage_find_model, progs)
 
